@@ -49,6 +49,8 @@ PROPS = {
            
             'quick_cfgs': ['g++-O2-c++17', 'clang++-O2-c++20', 'g++-O0-c++17-abacus', 'clang++-O0-c++2b', 'g++-O3-c++20', 'clang++-O1-c++17-abacus'],
             'thorough_cfgs': [c['id'] for c in CONFIGS if not c['san']]},
+    # behaviour outside the listed properties (spec/FxContractXtra.tla); NOT registered in MANIFEST.json
+    'X01': {'unclaimed': 'extra', 'chunk': 10000}, 'X02': {'unclaimed': 'extra'}, 'X03': {'unclaimed': 'extra'}, 'X04': {'unclaimed': 'extra'},
     'C17': {'chunk': 20000, 'e1': {'module': 'MC_Laws', 'instances': {'quick': [(6, 2, 1)], 'thorough': [(6, 2, 1), (8, 2, 3)]}}, 'simulate': {'quick': 4000, 'thorough': 150000}},
     'C05': {'chunk': 8000}, 'C16': {'chunk': 8000},
     'C14': {'chunk': 10000}, 'C19': {'chunk': 5000}, 'C20': {'chunk': 4000},
